@@ -207,6 +207,7 @@ CHECKS['C03']['text'] += (' np.argsort is modelled under its contract (ties in e
 CHECKS['C05']['text'] += (' The front end follows a table helper behind the public lookup and reads literal arithmetic as '
                           'Python does; double-precision moments are decided on the values the real lookup returns.')
 CHECKS['C07']['text'] += (' Candidates are replayed on several pairwise different witnesses of the path.')
+CHECKS['C08']['text'] += (' The cells linform reports as integrated are pairwise different and cover the area of the domain.')
 CHECKS['C09']['text'] += (' The element list reversed must give the direct sums; N_poly given as four orders must reach the five rules it names.')
 CHECKS['C14']['text'] += (' Two different orders (7,3), (3,7): each seminorm must use the rule of its own order.')
 CHECKS['C15']['text'] += (' One exact base rule is unordered and asymmetric (Radau): a rule is a set of (node, weight) pairs.')
